@@ -87,8 +87,17 @@ def run(ctx):
             continue
         if not isinstance(it, ast.Name):
             raise AnalysisError(f"_notify: loop iterable `{its}` not understood", "Promise._notify")
-        defs = [n for n in ncfg.nodes if n.kind == "stmt" and isinstance(n.ast, (ast.Assign, ast.AnnAssign)) and src(n.ast.targets[0] if isinstance(n.ast, ast.Assign) else n.ast.target) == its and n.ast.value is not None]
-        adefs = [(n, src(n.ast.value)) for n in defs if src(n.ast.value) in ("self._resolvers", "self._rejectors")]
+        adefs = []
+        for n in ncfg.nodes:
+            if n.kind != "stmt" or not isinstance(n.ast, (ast.Assign, ast.AnnAssign)) or n.ast.value is None:
+                continue
+            tg = n.ast.targets[0] if isinstance(n.ast, ast.Assign) else n.ast.target
+            pairs = [(tg, n.ast.value)]
+            if isinstance(tg, ast.Tuple) and isinstance(n.ast.value, ast.Tuple) and len(tg.elts) == len(n.ast.value.elts):
+                pairs = list(zip(tg.elts, n.ast.value.elts))  # `callbacks, outcome = self._resolvers, self._value`
+            for t_, v_ in pairs:
+                if src(t_) == its and src(v_) in ("self._resolvers", "self._rejectors"):
+                    adefs.append((n, src(v_)))
         if not adefs:
             raise AnalysisError(f"_notify: definition of `{its}` from a callback list not found", "Promise._notify")
         for d, attr in adefs:
